@@ -610,6 +610,8 @@ func (*AbsFunction).Execute
   requires validated-arguments: f != nil && len(args) >= 1 && len(args) <= 1
   ensures absolute-value: second(cast.ToFloat64E(args[0])) == nil ==> result1 == nil && result0 == boxof(ite(cast.ToFloat64E(args[0]) >= 0.0, cast.ToFloat64E(args[0]), 0.0 - cast.ToFloat64E(args[0])), float64)
   ensures non-numeric-argument-is-an-error-not-a-panic: !(second(cast.ToFloat64E(args[0])) == nil) ==> result1 != nil && result0 == nil
+  ensures an-argument-that-cannot-be-converted-is-an-error-0: second(cast.ToFloat64E(args[0])) != nil ==> result1 != nil && result0 == nil
+  ensures the-absolute-value-of-the-number: second(cast.ToFloat64E(args[0])) == nil ==> result1 == nil && result0 == boxof(ite(cast.ToFloat64E(args[0]) < 0.0, -cast.ToFloat64E(args[0]), cast.ToFloat64E(args[0])), float64)
 
 func (*SqrtFunction).Execute
   props C06
@@ -618,72 +620,90 @@ func (*SqrtFunction).Execute
   ensures square-root-of-a-non-negative-number: second(cast.ToFloat64E(args[0])) == nil && cast.ToFloat64E(args[0]) >= 0.0 ==> result1 == nil && result0 == boxof(sqrt(cast.ToFloat64E(args[0])), float64)
   ensures negative-argument-is-an-error-not-a-panic: second(cast.ToFloat64E(args[0])) == nil && cast.ToFloat64E(args[0]) < 0.0 ==> result1 != nil && result0 == nil
   ensures non-numeric-argument-is-an-error-not-a-panic: !(second(cast.ToFloat64E(args[0])) == nil) ==> result1 != nil && result0 == nil
+  ensures an-argument-that-cannot-be-converted-is-an-error-0: second(cast.ToFloat64E(args[0])) != nil ==> result1 != nil && result0 == nil
+  ensures a-negative-number-has-no-root: second(cast.ToFloat64E(args[0])) == nil && cast.ToFloat64E(args[0]) < 0.0 ==> result1 != nil
+  ensures the-root-of-a-number-that-is-not-negative: second(cast.ToFloat64E(args[0])) == nil && cast.ToFloat64E(args[0]) >= 0.0 ==> result1 == nil && result0 == boxof(sqrt(cast.ToFloat64E(args[0])), float64)
 
 func (*AcosFunction).Execute
   props C06
   option safety
   requires validated-arguments: f != nil && len(args) >= 1 && len(args) <= 1
   modifies *
+  ensures an-argument-that-cannot-be-converted-is-an-error-0: second(cast.ToFloat64E(args[0])) != nil ==> result1 != nil && result0 == nil
 
 func (*AsinFunction).Execute
   props C06
   option safety
   requires validated-arguments: f != nil && len(args) >= 1 && len(args) <= 1
   modifies *
+  ensures an-argument-that-cannot-be-converted-is-an-error-0: second(cast.ToFloat64E(args[0])) != nil ==> result1 != nil && result0 == nil
 
 func (*AtanFunction).Execute
   props C06
   option safety
   requires validated-arguments: f != nil && len(args) >= 1 && len(args) <= 1
   modifies *
+  ensures an-argument-that-cannot-be-converted-is-an-error-0: second(cast.ToFloat64E(args[0])) != nil ==> result1 != nil && result0 == nil
 
 func (*Atan2Function).Execute
   props C06
   option safety
   requires validated-arguments: f != nil && len(args) >= 2 && len(args) <= 2
   modifies *
+  ensures an-argument-that-cannot-be-converted-is-an-error-0: second(cast.ToFloat64E(args[0])) != nil ==> result1 != nil && result0 == nil
+  ensures an-argument-that-cannot-be-converted-is-an-error-1: second(cast.ToFloat64E(args[0])) == nil && second(cast.ToFloat64E(args[1])) != nil ==> result1 != nil && result0 == nil
 
 func (*BitAndFunction).Execute
   props C06
   option safety
   requires validated-arguments: f != nil && len(args) >= 2 && len(args) <= 2
   modifies *
+  ensures an-argument-that-cannot-be-converted-is-an-error-0: second(cast.ToInt64E(args[0])) != nil ==> result1 != nil && result0 == nil
+  ensures an-argument-that-cannot-be-converted-is-an-error-1: second(cast.ToInt64E(args[0])) == nil && second(cast.ToInt64E(args[1])) != nil ==> result1 != nil && result0 == nil
 
 func (*BitOrFunction).Execute
   props C06
   option safety
   requires validated-arguments: f != nil && len(args) >= 2 && len(args) <= 2
   modifies *
+  ensures an-argument-that-cannot-be-converted-is-an-error-0: second(cast.ToInt64E(args[0])) != nil ==> result1 != nil && result0 == nil
+  ensures an-argument-that-cannot-be-converted-is-an-error-1: second(cast.ToInt64E(args[0])) == nil && second(cast.ToInt64E(args[1])) != nil ==> result1 != nil && result0 == nil
 
 func (*BitXorFunction).Execute
   props C06
   option safety
   requires validated-arguments: f != nil && len(args) >= 2 && len(args) <= 2
   modifies *
+  ensures an-argument-that-cannot-be-converted-is-an-error-0: second(cast.ToInt64E(args[0])) != nil ==> result1 != nil && result0 == nil
+  ensures an-argument-that-cannot-be-converted-is-an-error-1: second(cast.ToInt64E(args[0])) == nil && second(cast.ToInt64E(args[1])) != nil ==> result1 != nil && result0 == nil
 
 func (*BitNotFunction).Execute
   props C06
   option safety
   requires validated-arguments: f != nil && len(args) >= 1 && len(args) <= 1
   modifies *
+  ensures an-argument-that-cannot-be-converted-is-an-error-0: second(cast.ToInt64E(args[0])) != nil ==> result1 != nil && result0 == nil
 
 func (*CosFunction).Execute
   props C06
   option safety
   requires validated-arguments: f != nil && len(args) >= 1 && len(args) <= 1
   modifies *
+  ensures an-argument-that-cannot-be-converted-is-an-error-0: second(cast.ToFloat64E(args[0])) != nil ==> result1 != nil && result0 == nil
 
 func (*CoshFunction).Execute
   props C06
   option safety
   requires validated-arguments: f != nil && len(args) >= 1 && len(args) <= 1
   modifies *
+  ensures an-argument-that-cannot-be-converted-is-an-error-0: second(cast.ToFloat64E(args[0])) != nil ==> result1 != nil && result0 == nil
 
 func (*ExpFunction).Execute
   props C06
   option safety
   requires validated-arguments: f != nil && len(args) >= 1 && len(args) <= 1
   modifies *
+  ensures an-argument-that-cannot-be-converted-is-an-error-0: second(cast.ToFloat64E(args[0])) != nil ==> result1 != nil && result0 == nil
 
 func (*FloorFunction).Execute
   props C06
@@ -691,36 +711,45 @@ func (*FloorFunction).Execute
   requires validated-arguments: f != nil && len(args) >= 1 && len(args) <= 1
   ensures largest-integer-not-above: second(cast.ToFloat64E(args[0])) == nil ==> result1 == nil && result0 == boxof(floor(cast.ToFloat64E(args[0])), float64)
   ensures non-numeric-argument-is-an-error-not-a-panic: !(second(cast.ToFloat64E(args[0])) == nil) ==> result1 != nil && result0 == nil
+  ensures an-argument-that-cannot-be-converted-is-an-error-0: second(cast.ToFloat64E(args[0])) != nil ==> result1 != nil && result0 == nil
+  ensures the-greatest-integer-not-above: second(cast.ToFloat64E(args[0])) == nil ==> result1 == nil && result0 == boxof(floor(cast.ToFloat64E(args[0])), float64)
 
 func (*LnFunction).Execute
   props C06
   option safety
   requires validated-arguments: f != nil && len(args) >= 1 && len(args) <= 1
   modifies *
+  ensures an-argument-that-cannot-be-converted-is-an-error-0: second(cast.ToFloat64E(args[0])) != nil ==> result1 != nil && result0 == nil
 
 func (*LogFunction).Execute
   props C06
   option safety
   requires validated-arguments: f != nil && len(args) >= 1 && len(args) <= 1
   modifies *
+  ensures an-argument-that-cannot-be-converted-is-an-error-0: second(cast.ToFloat64E(args[0])) != nil ==> result1 != nil && result0 == nil
 
 func (*Log10Function).Execute
   props C06
   option safety
   requires validated-arguments: f != nil && len(args) >= 1 && len(args) <= 1
   modifies *
+  ensures an-argument-that-cannot-be-converted-is-an-error-0: second(cast.ToFloat64E(args[0])) != nil ==> result1 != nil && result0 == nil
 
 func (*Log2Function).Execute
   props C06
   option safety
   requires validated-arguments: f != nil && len(args) >= 1 && len(args) <= 1
   modifies *
+  ensures an-argument-that-cannot-be-converted-is-an-error-0: second(cast.ToFloat64E(args[0])) != nil ==> result1 != nil && result0 == nil
 
 func (*ModFunction).Execute
   props C06
   option safety
   requires validated-arguments: f != nil && len(args) >= 2 && len(args) <= 2
   modifies *
+  ensures an-argument-that-cannot-be-converted-is-an-error-0: second(cast.ToFloat64E(args[0])) != nil ==> result1 != nil && result0 == nil
+  ensures an-argument-that-cannot-be-converted-is-an-error-1: second(cast.ToFloat64E(args[0])) == nil && second(cast.ToFloat64E(args[1])) != nil ==> result1 != nil && result0 == nil
+  ensures no-remainder-by-zero: second(cast.ToFloat64E(args[0])) == nil && second(cast.ToFloat64E(args[1])) == nil && cast.ToFloat64E(args[1]) == 0.0 ==> result1 != nil
 
 func (*RandFunction).Execute
   props C06
@@ -743,30 +772,36 @@ func (*SignFunction).Execute
   requires validated-arguments: f != nil && len(args) >= 1 && len(args) <= 1
   ensures sign-of-the-number: second(cast.ToFloat64E(args[0])) == nil ==> result1 == nil && result0 == boxof(ite(cast.ToFloat64E(args[0]) > 0.0, 1, ite(cast.ToFloat64E(args[0]) < 0.0, -1, 0)), int)
   ensures non-numeric-argument-is-an-error-not-a-panic: !(second(cast.ToFloat64E(args[0])) == nil) ==> result1 != nil && result0 == nil
+  ensures an-argument-that-cannot-be-converted-is-an-error-0: second(cast.ToFloat64E(args[0])) != nil ==> result1 != nil && result0 == nil
+  ensures minus-one-zero-or-one-by-the-sign: second(cast.ToFloat64E(args[0])) == nil ==> result1 == nil && result0 == boxof(ite(cast.ToFloat64E(args[0]) > 0.0, 1, ite(cast.ToFloat64E(args[0]) < 0.0, -1, 0)), int)
 
 func (*SinFunction).Execute
   props C06
   option safety
   requires validated-arguments: f != nil && len(args) >= 1 && len(args) <= 1
   modifies *
+  ensures an-argument-that-cannot-be-converted-is-an-error-0: second(cast.ToFloat64E(args[0])) != nil ==> result1 != nil && result0 == nil
 
 func (*SinhFunction).Execute
   props C06
   option safety
   requires validated-arguments: f != nil && len(args) >= 1 && len(args) <= 1
   modifies *
+  ensures an-argument-that-cannot-be-converted-is-an-error-0: second(cast.ToFloat64E(args[0])) != nil ==> result1 != nil && result0 == nil
 
 func (*TanFunction).Execute
   props C06
   option safety
   requires validated-arguments: f != nil && len(args) >= 1 && len(args) <= 1
   modifies *
+  ensures an-argument-that-cannot-be-converted-is-an-error-0: second(cast.ToFloat64E(args[0])) != nil ==> result1 != nil && result0 == nil
 
 func (*TanhFunction).Execute
   props C06
   option safety
   requires validated-arguments: f != nil && len(args) >= 1 && len(args) <= 1
   modifies *
+  ensures an-argument-that-cannot-be-converted-is-an-error-0: second(cast.ToFloat64E(args[0])) != nil ==> result1 != nil && result0 == nil
 
 func (*ConcatFunction).Execute
   props C06
@@ -779,18 +814,23 @@ func (*UpperFunction).Execute
   option safety
   requires validated-arguments: f != nil && len(args) >= 1 && len(args) <= 1
   modifies *
+  ensures an-argument-that-cannot-be-converted-is-an-error-0: second(cast.ToStringE(args[0])) != nil ==> result1 != nil && result0 == nil
+  ensures the-text-in-upper-case: second(cast.ToStringE(args[0])) == nil ==> result1 == nil && result0 == boxof(strings.ToUpper(cast.ToStringE(args[0])), string)
 
 func (*LowerFunction).Execute
   props C06
   option safety
   requires validated-arguments: f != nil && len(args) >= 1 && len(args) <= 1
   modifies *
+  ensures an-argument-that-cannot-be-converted-is-an-error-0: second(cast.ToStringE(args[0])) != nil ==> result1 != nil && result0 == nil
+  ensures the-text-in-lower-case: second(cast.ToStringE(args[0])) == nil ==> result1 == nil && result0 == boxof(strings.ToLower(cast.ToStringE(args[0])), string)
 
 func (*TrimFunction).Execute
   props C06
   option safety
   requires validated-arguments: f != nil && len(args) >= 1 && len(args) <= 1
   modifies *
+  ensures an-argument-that-cannot-be-converted-is-an-error-0: second(cast.ToStringE(args[0])) != nil ==> result1 != nil && result0 == nil
 
 func (*FormatFunction).Execute
   props C06
@@ -803,78 +843,106 @@ func (*EndswithFunction).Execute
   option safety
   requires validated-arguments: f != nil && len(args) >= 2 && len(args) <= 2
   modifies *
+  ensures an-argument-that-cannot-be-converted-is-an-error-0: second(cast.ToStringE(args[0])) != nil ==> result1 != nil && result0 == nil
+  ensures an-argument-that-cannot-be-converted-is-an-error-1: second(cast.ToStringE(args[0])) == nil && second(cast.ToStringE(args[1])) != nil ==> result1 != nil && result0 == nil
+  ensures whether-the-text-ends-with-the-suffix: second(cast.ToStringE(args[0])) == nil && second(cast.ToStringE(args[1])) == nil ==> result1 == nil && result0 == boxof(strings.HasSuffix(cast.ToStringE(args[0]), cast.ToStringE(args[1])), bool)
 
 func (*StartswithFunction).Execute
   props C06
   option safety
   requires validated-arguments: f != nil && len(args) >= 2 && len(args) <= 2
   modifies *
+  ensures an-argument-that-cannot-be-converted-is-an-error-0: second(cast.ToStringE(args[0])) != nil ==> result1 != nil && result0 == nil
+  ensures an-argument-that-cannot-be-converted-is-an-error-1: second(cast.ToStringE(args[0])) == nil && second(cast.ToStringE(args[1])) != nil ==> result1 != nil && result0 == nil
+  ensures whether-the-text-starts-with-the-prefix: second(cast.ToStringE(args[0])) == nil && second(cast.ToStringE(args[1])) == nil ==> result1 == nil && result0 == boxof(strings.HasPrefix(cast.ToStringE(args[0]), cast.ToStringE(args[1])), bool)
 
 func (*IndexofFunction).Execute
   props C06
   option safety
   requires validated-arguments: f != nil && len(args) >= 2 && len(args) <= 2
   modifies *
+  ensures an-argument-that-cannot-be-converted-is-an-error-0: second(cast.ToStringE(args[0])) != nil ==> result1 != nil && result0 == nil
+  ensures an-argument-that-cannot-be-converted-is-an-error-1: second(cast.ToStringE(args[0])) == nil && second(cast.ToStringE(args[1])) != nil ==> result1 != nil && result0 == nil
 
 func (*SubstringFunction).Execute
   props C06
   option safety
   requires validated-arguments: f != nil && len(args) >= 2 && len(args) <= 3
   modifies *
+  ensures an-argument-that-cannot-be-converted-is-an-error-0: second(cast.ToStringE(args[0])) != nil ==> result1 != nil && result0 == nil
+  ensures an-argument-that-cannot-be-converted-is-an-error-1: second(cast.ToStringE(args[0])) == nil && second(cast.ToInt64E(args[1])) != nil ==> result1 != nil && result0 == nil
 
 func (*ReplaceFunction).Execute
   props C06
   option safety
   requires validated-arguments: f != nil && len(args) >= 3 && len(args) <= 3
   modifies *
+  ensures an-argument-that-cannot-be-converted-is-an-error-0: second(cast.ToStringE(args[0])) != nil ==> result1 != nil && result0 == nil
+  ensures an-argument-that-cannot-be-converted-is-an-error-1: second(cast.ToStringE(args[0])) == nil && second(cast.ToStringE(args[1])) != nil ==> result1 != nil && result0 == nil
+  ensures an-argument-that-cannot-be-converted-is-an-error-2: second(cast.ToStringE(args[0])) == nil && second(cast.ToStringE(args[1])) == nil && second(cast.ToStringE(args[2])) != nil ==> result1 != nil && result0 == nil
 
 func (*SplitFunction).Execute
   props C06
   option safety
   requires validated-arguments: f != nil && len(args) >= 2 && len(args) <= 2
   modifies *
+  ensures an-argument-that-cannot-be-converted-is-an-error-0: second(cast.ToStringE(args[0])) != nil ==> result1 != nil && result0 == nil
+  ensures an-argument-that-cannot-be-converted-is-an-error-1: second(cast.ToStringE(args[0])) == nil && second(cast.ToStringE(args[1])) != nil ==> result1 != nil && result0 == nil
 
 func (*LpadFunction).Execute
   props C06
   option safety overflow
   requires validated-arguments: f != nil && len(args) >= 2 && len(args) <= 3
   modifies *
+  ensures an-argument-that-cannot-be-converted-is-an-error-0: second(cast.ToStringE(args[0])) != nil ==> result1 != nil && result0 == nil
+  ensures an-argument-that-cannot-be-converted-is-an-error-1: second(cast.ToStringE(args[0])) == nil && second(cast.ToInt64E(args[1])) != nil ==> result1 != nil && result0 == nil
 
 func (*RpadFunction).Execute
   props C06
   option safety overflow
   requires validated-arguments: f != nil && len(args) >= 2 && len(args) <= 3
   modifies *
+  ensures an-argument-that-cannot-be-converted-is-an-error-0: second(cast.ToStringE(args[0])) != nil ==> result1 != nil && result0 == nil
+  ensures an-argument-that-cannot-be-converted-is-an-error-1: second(cast.ToStringE(args[0])) == nil && second(cast.ToInt64E(args[1])) != nil ==> result1 != nil && result0 == nil
 
 func (*LtrimFunction).Execute
   props C06
   option safety
   requires validated-arguments: f != nil && len(args) >= 1 && len(args) <= 1
   modifies *
+  ensures an-argument-that-cannot-be-converted-is-an-error-0: second(cast.ToStringE(args[0])) != nil ==> result1 != nil && result0 == nil
 
 func (*RtrimFunction).Execute
   props C06
   option safety
   requires validated-arguments: f != nil && len(args) >= 1 && len(args) <= 1
   modifies *
+  ensures an-argument-that-cannot-be-converted-is-an-error-0: second(cast.ToStringE(args[0])) != nil ==> result1 != nil && result0 == nil
 
 func (*RegexpMatchesFunction).Execute
   props C06
   option safety
   requires validated-arguments: f != nil && len(args) >= 2 && len(args) <= 2
   modifies *
+  ensures an-argument-that-cannot-be-converted-is-an-error-0: second(cast.ToStringE(args[0])) != nil ==> result1 != nil && result0 == nil
+  ensures an-argument-that-cannot-be-converted-is-an-error-1: second(cast.ToStringE(args[0])) == nil && second(cast.ToStringE(args[1])) != nil ==> result1 != nil && result0 == nil
 
 func (*RegexpReplaceFunction).Execute
   props C06
   option safety
   requires validated-arguments: f != nil && len(args) >= 3 && len(args) <= 3
   modifies *
+  ensures an-argument-that-cannot-be-converted-is-an-error-0: second(cast.ToStringE(args[0])) != nil ==> result1 != nil && result0 == nil
+  ensures an-argument-that-cannot-be-converted-is-an-error-1: second(cast.ToStringE(args[0])) == nil && second(cast.ToStringE(args[1])) != nil ==> result1 != nil && result0 == nil
+  ensures an-argument-that-cannot-be-converted-is-an-error-2: second(cast.ToStringE(args[0])) == nil && second(cast.ToStringE(args[1])) == nil && second(cast.ToStringE(args[2])) != nil ==> result1 != nil && result0 == nil
 
 func (*RegexpSubstringFunction).Execute
   props C06
   option safety
   requires validated-arguments: f != nil && len(args) >= 2 && len(args) <= 2
   modifies *
+  ensures an-argument-that-cannot-be-converted-is-an-error-0: second(cast.ToStringE(args[0])) != nil ==> result1 != nil && result0 == nil
+  ensures an-argument-that-cannot-be-converted-is-an-error-1: second(cast.ToStringE(args[0])) == nil && second(cast.ToStringE(args[1])) != nil ==> result1 != nil && result0 == nil
 
 func (*CastFunction).Execute
   props C06
@@ -893,6 +961,7 @@ func (*Dec2HexFunction).Execute
   option safety
   requires validated-arguments: f != nil && len(args) >= 1 && len(args) <= 1
   modifies *
+  ensures an-argument-that-cannot-be-converted-is-an-error-0: second(cast.ToInt64E(args[0])) != nil ==> result1 != nil && result0 == nil
 
 func (*EncodeFunction).Execute
   props C06
@@ -923,6 +992,7 @@ func (*ChrFunction).Execute
   option safety
   requires validated-arguments: f != nil && len(args) >= 1 && len(args) <= 1
   modifies *
+  ensures an-argument-that-cannot-be-converted-is-an-error-0: second(cast.ToInt64E(args[0])) != nil ==> result1 != nil && result0 == nil
 
 func (*UrlEncodeFunction).Execute
   props C06
@@ -950,18 +1020,24 @@ func (*IfNullFunction).Execute
   option safety
   requires validated-arguments: f != nil && len(args) >= 2 && len(args) <= 2
   modifies *
+  ensures a-value-that-is-not-null-is-itself: args[0] != nil ==> result0 == args[0] && result1 == nil
+  ensures null-is-replaced-by-the-second-argument: args[0] == nil && !(hasType(args[1], int) && intval(args[1]) == 0) && !hasType(args[1], float32) ==> result0 == args[1] && result1 == nil
+  ensures an-integer-zero-replacement-comes-out-as-the-float-zero: args[0] == nil && hasType(args[1], int) && intval(args[1]) == 0 ==> result0 == boxof(0.0, float64) && result1 == nil
 
 func (*CoalesceFunction).Execute
   props C06 C13
   option safety
   requires validated-arguments: f != nil && len(args) >= 1
   modifies *
+  ensures the-first-argument-that-is-not-null: result1 == nil && (forall(j, 0, len(args), args[j] == nil) ==> result0 == nil) && (exists(j, 0, len(args), args[j] != nil) ==> exists(k, 0, len(args), result0 == args[k] && args[k] != nil && forall(j, 0, k, args[j] == nil)))
+  loop 1 invariant forall(j, 0, $i, args[j] == nil)
 
 func (*NullIfFunction).Execute
   props C06 C13
   option safety
   requires validated-arguments: f != nil && len(args) >= 2 && len(args) <= 2
   modifies *
+  ensures null-when-both-are-equal-else-the-first: result1 == nil && result0 == ite(reflect.DeepEqual(args[0], args[1]), nil, args[0])
 
 func (*GreatestFunction).Execute
   props C06 C13
@@ -1177,12 +1253,16 @@ func (*CeilingFunction).Execute
   requires validated-arguments: f != nil && len(args) >= 1 && len(args) <= 1
   ensures smallest-integer-not-below: second(cast.ToFloat64E(args[0])) == nil ==> result1 == nil && result0 == boxof(0.0 - floor(0.0 - cast.ToFloat64E(args[0])), float64)
   ensures non-numeric-argument-is-an-error-not-a-panic: !(second(cast.ToFloat64E(args[0])) == nil) ==> result1 != nil && result0 == nil
+  ensures an-argument-that-cannot-be-converted-is-an-error-0: second(cast.ToFloat64E(args[0])) != nil ==> result1 != nil && result0 == nil
+  ensures the-least-integer-not-below: second(cast.ToFloat64E(args[0])) == nil ==> result1 == nil && hasType(result0, float64) && realval(result0) >= cast.ToFloat64E(args[0]) && realval(result0) < cast.ToFloat64E(args[0]) + 1.0 && realval(result0) == floor(realval(result0))
 
 func (*PowerFunction).Execute
   props C06
   option safety
   requires validated-arguments: f != nil && len(args) >= 2 && len(args) <= 2
   modifies *
+  ensures an-argument-that-cannot-be-converted-is-an-error-0: second(cast.ToFloat64E(args[0])) != nil ==> result1 != nil && result0 == nil
+  ensures an-argument-that-cannot-be-converted-is-an-error-1: second(cast.ToFloat64E(args[0])) == nil && second(cast.ToFloat64E(args[1])) != nil ==> result1 != nil && result0 == nil
 
 func (*LengthFunction).Execute
   props C06
